@@ -33,7 +33,18 @@ func PropC11(c *vs.Case, f Factory) error {
 	steps := 2 + c.Int(4)
 	for s := 0; s < steps; s++ {
 		// environment: edit the live parent, possibly invisible to the cache
-		switch c.Weighted(4, 2, 1, 1) {
+		switch c.Weighted(4, 2, 1, 1, 1) {
+		case 4:
+			// the user deletes the parent; with a finalize hook the controller's finalizer keeps it around, and its
+			// status is still the hook's business
+			if cur := env.Parent(); cur != nil && !IsDeleting(cur) && scn.Cfg.FinalizeHook {
+				scn.Prog.FinalizeMode = 1
+				scn.Prog.FinalizedMode = 2
+				scn.Prog.Install(env.W, scn.Cfg.Kind)
+				env.W.Sim.ExtDelete(scn.Cfg.ParentResource, scn.ParentNS(), scn.ParentName(), "")
+				log = append(log, "parent deleted (finalizing)")
+				c.Class("parent-finalizing")
+			}
 		case 1:
 			env.W.Sim.ExtUpdate(scn.Cfg.ParentResource, scn.ParentNS(), scn.ParentName(), func(o map[string]any) {
 				spec := o["spec"].(map[string]any)
